@@ -13,3 +13,6 @@ import NbioVerif.Properties.C16
 #print axioms Deadline.c16_due_is_enabled
 #print axioms Deadline.c16_pinned_stale_counterexample
 #print axioms Deadline.c16_connected_ends_dial_timer
+#print axioms Deadline.c16_fire_then_cb_closes
+#print axioms Deadline.c16_no_callback_before_first_expiry
+#print axioms Deadline.c16_force_is_spec
